@@ -1270,9 +1270,13 @@ class Obj(Opcode):
         kls = args.pop(0)
         # TODO Verify paths for correctness
         if args or hasattr(kls, "__getinitargs__") or not isinstance(kls, type):
-            interpreter.stack.append(ast.Call(kls, args, []))
+            call = ast.Call(kls, args, [])
         else:
-            interpreter.stack.append(ast.Call(kls, kls, []))
+            call = ast.Call(kls, kls, [])
+        # Like REDUCE and INST, bind the call to a variable right away so that it still appears
+        # in the decompiled program when the VM later pops, duplicates or never uses its value
+        var_name = interpreter.new_variable(call)
+        interpreter.stack.append(ast.Name(var_name, ast.Load()))
 
 
 class ShortBinUnicode(DynamicLength, ConstantOpcode):
@@ -1340,9 +1344,11 @@ class NewObj(Opcode):
         args = interpreter.stack.pop()
         class_type = interpreter.stack.pop()
         if isinstance(args, ast.Tuple):
-            interpreter.stack.append(ast.Call(class_type, list(args.elts), []))
+            call = ast.Call(class_type, list(args.elts), [])
         else:
-            interpreter.stack.append(ast.Call(class_type, [ast.Starred(args)], []))
+            call = ast.Call(class_type, [ast.Starred(args)], [])
+        var_name = interpreter.new_variable(call)
+        interpreter.stack.append(ast.Name(var_name, ast.Load()))
 
 
 class NewObjEx(Opcode):
@@ -1353,9 +1359,11 @@ class NewObjEx(Opcode):
         args = interpreter.stack.pop()
         class_type = interpreter.stack.pop()
         if isinstance(args, ast.Tuple):
-            interpreter.stack.append(ast.Call(class_type, list(args.elts), kwargs))
+            call = ast.Call(class_type, list(args.elts), kwargs)
         else:
-            interpreter.stack.append(ast.Call(class_type, [ast.Starred(args)], kwargs))
+            call = ast.Call(class_type, [ast.Starred(args)], kwargs)
+        var_name = interpreter.new_variable(call)
+        interpreter.stack.append(ast.Name(var_name, ast.Load()))
 
 
 class BinPersId(Opcode):
@@ -1363,13 +1371,13 @@ class BinPersId(Opcode):
 
     def run(self, interpreter: Interpreter):
         pid = interpreter.stack.pop()
-        interpreter.stack.append(
-            ast.Call(
-                ast.Attribute(ast.Name("UNPICKLER", ast.Load()), "persistent_load"),
-                [pid],
-                [],
-            )
+        call = ast.Call(
+            ast.Attribute(ast.Name("UNPICKLER", ast.Load()), "persistent_load"),
+            [pid],
+            [],
         )
+        var_name = interpreter.new_variable(call)
+        interpreter.stack.append(ast.Name(var_name, ast.Load()))
 
 
 class PersId(Opcode):
